@@ -54,6 +54,14 @@ CHECKS = {
              "findings); include+exclude raise. Does not decide that reported/unreported glyphs really did/did not change.",
         design_ref="DESIGN.md §5 C14, §3 E3/E8", note=STATIC_NOTE,
         technique="static analysis: typestate via dominators, CFG path rules with interprocedural mutation summaries, ownership analysis, guard entailment"),
+    "C20": dict(
+        text="Static sibling-agreement rule over the GPOS writers of FeatureCompiler.defaultFeatureWriters: how each registers its lookups "
+             "(explicit script/language statements from code-point-derived scripts vs. bare lookups that depend on languagesystem), "
+             "derived from the statement kinds reachable from each writer's _write. All writers must share one mode unless something "
+             "generates languagesystem statements. Today's mismatch (kern explicit, mark and curs implicit) is a genuine defect recorded "
+             "as two known findings; any further writer or mode change is a new violation. The compiled ScriptList is not evaluated.",
+        design_ref="DESIGN.md §5 C20", note=STATIC_NOTE,
+        technique="static analysis: per-writer reachability over the call graph + sibling agreement on emitted statement kinds"),
 }
 
 _TODO = "check not built yet in this session (static rules designed in DESIGN.md §5; will be claimed when the rule set is armed)"
